@@ -189,6 +189,13 @@ static void bufferRound(int producers, long perProducer, int pace, long round, u
 }
 
 // ------------------------------------------------------------------ value round
+// failpoint of the payload: when armed on the calling thread, its next copy-assignment fails the way a heap-owning
+// payload's does (it throws and leaves the target as it was)
+struct InjectedFault
+{
+};
+static thread_local int t_failNextAssign = 0;
+
 struct Val
 {
   uint64_t seq;
@@ -196,6 +203,33 @@ struct Val
   std::string text;
   Val() : seq(0), check(0x5eed), text("initial") {}
   explicit Val(uint64_t s) : seq(s), check(s * 0x9E3779B97F4A7C15ull ^ 0x5eed), text("value-" + std::to_string(s) + "-with-heap-padding-padding-padding") {}
+  Val(const Val &o) : seq(o.seq), check(o.check), text(o.text) {}
+  Val(Val &&o) : seq(o.seq), check(o.check), text(std::move(o.text)) { o.gut(); }
+  Val &operator=(const Val &o)
+  {
+    if (t_failNextAssign) {
+      t_failNextAssign = 0;
+      throw InjectedFault();
+    }
+    seq   = o.seq;
+    check = o.check;
+    text  = o.text;
+    return *this;
+  }
+  Val &operator=(Val &&o)
+  {
+    seq   = o.seq;
+    check = o.check;
+    text  = std::move(o.text);
+    o.gut();
+    return *this;
+  }
+  void gut()  // a moved-from value is recognisably not a value anybody assigned
+  {
+    seq   = ~0ull;
+    check = 0;
+    text  = "moved-from";
+  }
   bool valid() const
   {
     if (seq == 0)
@@ -211,6 +245,7 @@ static void valueRound(long assigns, int pace, long round, uint64_t rs)
   std::atomic<int> go(0);
   std::atomic<bool> producerDone(false);
   std::atomic<uint64_t> assignedBegun(0);
+  std::atomic<long> failedAssigns(0), failedButReturned(0);
   long updatesTrue = 0, updatesFalse = 0, invalid = 0, backwards = 0, trueNotNewer = 0, falseChanged = 0, fromFuture = 0;
   std::string firstBad;
   std::thread producer([&]() {
@@ -219,6 +254,18 @@ static void valueRound(long assigns, int pace, long round, uint64_t rs)
     }
     for (long i = 1; i <= assigns; ++i) {
       assignedBegun.store((uint64_t)i, std::memory_order_relaxed);
+      // a few assignments fail (the payload's copy throws): nothing may become visible from those
+      if (i != assigns && r.chance(1, 64)) {
+        t_failNextAssign = 1;
+        try {
+          tv = Val((uint64_t)i);
+          failedButReturned.fetch_add(1);
+        } catch (const InjectedFault &) {
+          failedAssigns.fetch_add(1);
+        }
+        t_failNextAssign = 0;
+        continue;
+      }
       tv = Val((uint64_t)i);
       if (pace == 1 && (i & 15) == 0)
         std::this_thread::yield();
@@ -288,6 +335,8 @@ static void valueRound(long assigns, int pace, long round, uint64_t rs)
     vh::violation("C12:value:update-result-wrong", std::to_string(trueNotNewer) + " update()==true without a newer value, " + std::to_string(falseChanged) + " update()==false with a changed value; " + firstBad, ctx);
   if (fromFuture)
     vh::violation("C12:value:value-from-the-future", "a value was seen before its assignment began", ctx);
+  VH_CHECK(failedButReturned.load() == 0, "C12:harness:failpoint-not-reached", "an armed assignment did not go through the payload's copy-assignment", ctx);
+  vh::count("value_assignments_failed_by_failpoint", failedAssigns.load());
   vh::count("value_updates_true", updatesTrue);
   vh::count("value_updates_false", updatesFalse);
   vh::count("value_assignments", assigns);
@@ -307,7 +356,7 @@ static void valueBurstRound(long bursts, long round, uint64_t rs)
   std::atomic<uint64_t> stoppedAt(0), acked(0);
   std::atomic<bool> done(false);
   std::atomic<int> go(0);
-  long lost = 0, invalid = 0, backwards = 0, updTrueNoNew = 0;
+  long lost = 0, invalid = 0, backwards = 0, updTrueNoNew = 0, failed = 0;
   std::string firstBad;
   std::thread producer([&]() {
     vh::Rng r(rs, 31);
@@ -316,8 +365,19 @@ static void valueBurstRound(long bursts, long round, uint64_t rs)
     }
     for (long b = 0; b < bursts; ++b) {
       int n = 1 + (int)r.below(4);
-      for (int i = 0; i < n; ++i)
-        tv = Val(++seq);
+      for (int i = 0; i < n; ++i) {
+        // the first assignment of a burst meets a queue the consumer has emptied; it and others fail now and then
+        if (r.chance(1, 5) && !(i == n - 1 && seq == stoppedAt.load())) {
+          t_failNextAssign = 1;
+          try {
+            tv = Val(seq + 1000000000ull);  // a value that must never be seen
+          } catch (const InjectedFault &) {
+            ++failed;
+          }
+          t_failNextAssign = 0;
+        } else
+          tv = Val(++seq);
+      }
       stoppedAt.store(seq);
       while (acked.load() != seq)
         std::this_thread::yield();
@@ -335,7 +395,7 @@ static void valueBurstRound(long bursts, long round, uint64_t rs)
       if (!v.valid()) {
         ++invalid;
         if (firstBad.empty())
-          firstBad = "invalid value seq=" + std::to_string(v.seq);
+          firstBad = "invalid value seq=" + std::to_string(v.seq) + " text='" + v.text + "'" + (upd ? " installed by an update() that returned true" : "");
       } else if (v.seq < prev) {
         ++backwards;
       } else
@@ -371,6 +431,7 @@ static void valueBurstRound(long bursts, long round, uint64_t rs)
     vh::violation("C12:value:order-violated", std::to_string(backwards) + " time(s) an older value followed a newer one", ctx);
   if (updTrueNoNew)
     vh::violation("C12:value:update-true-without-new-value", std::to_string(updTrueNoNew) + " time(s) update() returned true although nothing had been assigned since the last update", ctx);
+  vh::count("value_burst_assignments_failed_by_failpoint", failed);
   vh::count("value_bursts_checked", bursts);
   vh::evaluated(vh::hash64(vh::hash64(77, (uint64_t)bursts), (uint64_t)round), true);
 }
@@ -382,7 +443,8 @@ int main(int argc, char **argv)
   const bool tsan = variant.find("tsan") != std::string::npos, asan = variant.find("asan") != std::string::npos;
   vh::rule(
       "case = one round of (payload type, producers 1..8, pushes per producer, pacing) against a consuming and a polling thread, or one "
-      "round of (assignments, pacing) on a TransactionalValue; distinct = hash of the parameters and of the observed number of batches / "
+      "round of (assignments, pacing) on a TransactionalValue, in which some assignments fail (the payload's copy throws at a failpoint) "
+      "and must leave nothing visible; distinct = hash of the parameters and of the observed number of batches / "
       "successful updates (a proxy for the interleaving); non-trivial = more than one batch / successful update observed");
   vh::Rng r(vh::seed(), 12);
   const long scale = tsan ? 1 : (asan ? 2 : 10);
